@@ -15,7 +15,8 @@ pub open spec fn unq(t: Token) -> bool { t.0@.len() == 0 }
 pub open spec fn is_pipe(t: Token) -> bool { unq(t) && t.1@ == "|"@ }
 pub open spec fn is_lt(t: Token) -> bool { unq(t) && (t.1@ == "<"@ || t.1@ == "<<<"@) }
 // an unquoted word that begins with `<`: the operator itself, or the operator glued to its operand (`<file`, `<<<word`)
-pub open spec fn lt_like(t: Token) -> bool { unq(t) && t.1@.len() > 0 && t.1@[0] == '<' }
+// an unquoted word with a `<` in it: the words the input-redirection pass may take apart (`cat<file`, `<file`, `<<<word`, `<`)
+pub open spec fn lt_like(t: Token) -> bool { unq(t) && t.1@.contains('<') }
 pub open spec fn tv(t: Token) -> (Seq<char>, Seq<char>) { tok_view(t) }
 pub open spec fn tsv(v: Seq<Token>) -> Seq<(Seq<char>, Seq<char>)> { toks_view(v) }
 pub open spec fn pipe_tv() -> (Seq<char>, Seq<char>) { (Seq::<char>::empty(), "|"@) }
@@ -181,6 +182,16 @@ pub fn vx_any_lt(v: &Tokens, tagged: bool) -> (r: bool)
 { unimplemented!() }
 pub open spec fn lt_at(v: Seq<Token>, i: int, tagged: bool) -> bool { (!tagged || unq(v[i])) && (v[i].1@ == "<"@ || v[i].1@ == "<<<"@) }
 #[verifier::external_body]
+pub fn vx_find_lt(text: &String) -> (r: Option<usize>) ensures r.is_some() == text@.contains('<') { text.find('<') }
+#[verifier::external_body]
+pub fn vx_str_from(text: &String, pos: usize) -> (r: &str) { unimplemented!() }
+#[verifier::external_body]
+pub fn vx_str_to(text: &String, pos: usize) -> (r: String) { unimplemented!() }
+#[verifier::external_body]
+pub fn vx_str_after(rest: &str, op: &str) -> (r: String) { unimplemented!() }
+#[verifier::external_body]
+pub fn vx_longer(rest: &str, op: &str) -> (r: bool) { rest.len() > op.len() }
+#[verifier::external_body]
 pub fn vx_position_lt(v: &Tokens, tagged: bool) -> (r: Option<usize>)
     ensures match r {
         Some(i) => i < v@.len() && lt_at(v@, i as int, tagged) && forall|j: int| 0 <= j < i ==> !#[trigger] lt_at(v@, j, tagged),
@@ -308,17 +319,18 @@ ANY = [
 
 # `<file` / `<<<word`: the operator glued to its operand is taken apart first; words that are quoted, or do not begin with `<`, are left alone
 split_glued = Fn(T, 'split_glued_input_redirections', ret='r',
-    pre_rewrites=[Rw('text[3..].to_string()', 'vx_skip_bytes(text, 3)', rule='R12', why='byte slice of the word after the operator, through a shim (text uninterpreted)'),
-                  Rw('text[1..].to_string()', 'vx_skip_bytes(text, 1)', rule='R12'),
-                  Rw('text.len()', 'vx_byte_len_str(text)', rule='R12', why='str::len is a byte length')],
+    pre_rewrites=[Rw("text.find('<')", 'vx_find_lt(text)', rule='R12', why="str::find('<') through a shim: Some iff the text contains the char (std contract); the position is a byte offset"),
+                  Rw('&text[pos..]', 'vx_str_from(text, pos)', rule='R12', why='byte slices of the word through shims (texts uninterpreted)'),
+                  Rw('text[..pos].to_string()', 'vx_str_to(text, pos)', rule='R12'),
+                  Rw('rest[op.len()..].to_string()', 'vx_str_after(rest, op)', rule='R12'),
+                  Rw('rest.len() > op.len()', 'vx_longer(rest, op)', rule='R12', why='byte lengths')],
     let_types={'result': 'Tokens'},
     clone_shims={'sep': 'vx_clone_string', 'text': 'vx_clone_string'},
-    ensures=[('C04+C01.split_glued.words_not_beginning_with_an_unquoted_lt_are_untouched',
+    ensures=[('C04+C01.split_glued.words_without_an_unquoted_lt_are_untouched',
               '(forall|i: int| 0 <= i < tokens@.len() ==> !lt_like(#[trigger] tokens@[i])) ==> tsv(r@) == tsv(tokens@)')],
     loops={0: Loop(invariant=[('C04+C01.inv.split_glued.prefix',
                                '(forall|i: int| 0 <= i < tokens@.len() ==> !lt_like(#[trigger] tokens@[i])) ==> tsv(result@) == tsv(tokens@.take(__I as int))')])},
-    hints={'loop-0-body-entry': 'lemma_take_push(tokens@, __I as int); reveal_strlit("<<<"); reveal_strlit("<<"); assert("<<<"@ =~= seq![\'<\', \'<\', \'<\']); '
-                                'assert forall|a: Seq<char>| #![trigger a.subrange(0, 3)] a.len() >= 3 && a.subrange(0, 3) == "<<<"@ implies a[0] == \'<\' by { assert(a.subrange(0, 3)[0] == a[0]); } '
+    hints={'loop-0-body-entry': 'lemma_take_push(tokens@, __I as int); '
                                 'assert forall|x: Token| #[trigger] tsv(result@.push(x)) == tsv(result@).push(tv(x)) by { assert(tsv(result@.push(x)) =~= tsv(result@).push(tv(x))); }',
            'loop-0-exit': 'assert(tokens@.take(tokens@.len() as int) == tokens@);'},
 )
